@@ -1,5 +1,5 @@
 (* Extraction of the ReaderWriterMutex LTS for the correspondence run (ExtrOcamlBasic only). *)
 From Coq Require Import ExtrOcamlBasic.
 From Coq Require Extraction.
-From Muscle Require Import Conc.RwMutexModel.
-Extraction "rwmutex_model.ml" sys_step sys0 s_g s_l.
+From Muscle Require Import Conc.RwMutexModel Conc.RwMutexCheck.
+Extraction "rwmutex_model.ml" sys_step sys0 s_g s_l check_state.
